@@ -4,7 +4,7 @@
 cd /verif
 list="$@"; [ -z "$list" ] && list=$(ls seeded)
 for s in $list; do
-  p=$(python3 -c "import json;print(json.load(open('seeded/$s/meta.json'))['property'])")
+  [ -f seeded/$s/meta.json ] || { echo "ERROR $s: no meta.json"; continue; }
   # the check that is expected to catch it: the first key of detected_by that does not say 'not visible'/'silent'
   q=$(python3 -c "
 import json
@@ -16,5 +16,6 @@ for k,v in m['detected_by'].items():
   d=$(tools/mut_worktree.sh /verif/seeded/$s/patch.diff reg_$s 2>/dev/null) || { echo "$s: patch does not apply to HEAD"; continue; }
   r=$(tools/on_mutant.sh $d $q quick 2>&1 | grep -aE "quick:")
   git -C /repo worktree remove --force $d
-  if echo "$r" | grep -q " 0 violation"; then echo "MISSED $s (check $q): $r"; else echo "CAUGHT $s (check $q): $r"; fi
+  if [ -z "$r" ]; then echo "ERROR $s (check $q): the check did not run";
+  elif echo "$r" | grep -q " 0 violation"; then echo "MISSED $s (check $q): $r"; else echo "CAUGHT $s (check $q): $r"; fi
 done
